@@ -419,6 +419,23 @@ def run(ctx: Ctx) -> Result:
                 if own.split(' ')[0] != via.split(' ')[0]:
                     B.viol(f'a leaf {depth} evaluations below the lock, callstack_limit = {depth + extra}: verdict differs from the leaf script\'s own verdict',
                            {'cfg': tcfg.line(), 'leaf': li, 'scripts': [u.hex(), lock.bytes.hex()], 'cache': vmrun.cache_str(sf, False)}, own[:60], via[:80])
+    # ---------------------------------------------------------------- a stack that is exactly full when a level starts: the tree cannot turn a leaf's False into True
+    for it in range(ctx.n(6, 30)):
+        d = [1, 2, 3, 1, 2, 4][it % 6]
+        codes_ = [marker(90 + j) + T.Script.from_src(rng.choice(['true', 'true', 'push d1 pop0 true'])).bytes for j in range(d + 1)]
+        out = try_build(T.make_merklized_script_prioritized, [T.Script.from_bytes(c) for c in codes_])
+        if isinstance(out, str): continue
+        lock, unlocks = out
+        for li in sorted({0, d}):
+            for wit in (bytes([0]), bytes([0, 0]), bytes([0, 1]), bytes([3, 4]) + b'junk'):
+                for m_ in range(2, 2 * d + 6):
+                    mcfg = vmrun.Cfg(now=B.now, max_items=m_)
+                    own = vmrun.auth_impl(mcfg, sf, [wit, codes_[li]]); via = vmrun.auth_impl(mcfg, sf, [wit, unlocks[li].bytes, lock.bytes])
+                    res.note_case(('full-stack', d, li, wit, m_))
+                    if len(B.records) < ctx.n(2500, 12000) + 900 and m_ % 2 == 0: B.records.append((mcfg, dict(sf), [wit, unlocks[li].bytes, lock.bytes], via))
+                    if via.split(' ')[0] == 'T' and own.split(' ')[0] != 'T':
+                        B.viol(f'stack_max_items = {m_}, witness leaves {wit.hex()} below the proof: the tree authorizes although the leaf on that stack does not',
+                               {'cfg': mcfg.line(), 'leaf': li, 'scripts': [wit.hex(), unlocks[li].bytes.hex(), lock.bytes.hex()], 'cache': vmrun.cache_str(sf, False)}, own[:60], via[:80])
     # ---------------------------------------------------------------- builders
     maxn = 24
     sizes = list(range(1, maxn + 1)) if ctx.tier == 'thorough' else [1, 2, 3, 4, 5, 7, 8, 9, 16, 17, 24]
